@@ -65,3 +65,14 @@ Definition spec_radix_c (r n1 d1 n2 d2 : Z) : res :=
   | DivZero, _ | _, DivZero => DivZero
   | _, _ => Undefined
   end.
+
+(** (expt z e) for an exact complex or rational base and an exact integer exponent: repeated product,
+    and the reciprocal for a negative exponent (DivZero for a zero base) *)
+Definition gnorm (z : gq) : gq := (qnorm (fst (fst z)) (snd (fst z)), qnorm (fst (snd z)) (snd (snd z))).
+(** every partial product is reduced to lowest terms (same values; keeps the oracle's numbers small) *)
+Fixpoint gpow (x : gq) (n : nat) : gq :=
+  match n with O => ((1, 1), (0, 1)) | S k => gnorm (gmul x (gpow x k)) end.
+Definition specc_expt (a1 b1 a2 b2 e : Z) : res :=
+  let x : gq := ((a1, b1), (a2, b2)) in
+  if 0 <=? e then gqres (gpow x (Z.to_nat e))
+  else gqres (gdiv ((1, 1), (0, 1)) (gpow x (Z.to_nat (- e)))).
